@@ -1,3 +1,95 @@
-From Coq Require Import List.
-Theorem C12_placeholder : True. Proof. exact I. Qed.
-Print Assumptions C12_placeholder.
+(* C12 — circuits built with normalised parameterisations are normalised
+   Property theorems only: each is closed by `exact <lemma>`; proofs live in the imported files. *)
+From Coq Require Import List ZArith QArith Qcanon Ring_theory Field_theory Permutation Sorted.
+Import ListNotations.
+From CK Require Import Base.
+From CK Require Import Circ.
+From CK Require Import Integrate.
+From CK Require Import Normalised.
+Close Scope Qc_scope. Close Scope Q_scope. Close Scope Z_scope. Open Scope nat_scope.
+
+(* if every input node integrates to one over its scope and every sum row sums to one, every node of the integrated circuit evaluates to the all-ones vector *)
+Theorem C12_partition_one :
+  forall (R : Type) (rO rI : R) (radd rmul : R -> R -> R),
+         semi_ring_theory rO rI radd rmul eq ->
+         forall (D : Type) (Int : nat -> (D -> R) -> R) (Z : list nat) (c : circuit R D),
+         ok R rO D c ->
+         (forall n : node R D, In n c -> norm_node R rO rI radd D Int Z (units R D c) n) ->
+         forall (y : asg D) (o : nat),
+         o < length c ->
+         nth o (eval R rO radd rmul D (integrate R rO D Int Z c) y) [] = ones R rI (nth o (units R D c) 0).
+Proof. exact normalised_partition. Qed.
+Print Assumptions C12_partition_one.
+
+(* ... hence the partition function (iterated integral of every unit of every node) equals one, for every parameter value *)
+Theorem C12_partition_function :
+  forall (R : Type) (rO rI : R) (radd rmul : R -> R -> R),
+         semi_ring_theory rO rI radd rmul eq ->
+         forall (D : Type) (Int : nat -> (D -> R) -> R),
+         (forall (v : nat) (f g : D -> R), (forall d : D, f d = g d) -> Int v f = Int v g) ->
+         (forall (v : nat) (f g : D -> R), Int v (fun d : D => radd (f d) (g d)) = radd (Int v f) (Int v g)) ->
+         (forall (v : nat) (c : R) (f : D -> R), Int v (fun d : D => rmul c (f d)) = rmul c (Int v f)) ->
+         forall (Z : list nat) (c : circuit R D),
+         ok R rO D c ->
+         (forall n : node R D, In n c -> norm_node R rO rI radd D Int Z (units R D c) n) ->
+         forall (y : asg D) (o k : nat),
+         o < length c ->
+         k < nth o (units R D c) 0 ->
+         IntL R D Int (zs_of Z (nth o (scopes R D c) []))
+           (fun y' : asg D => nth k (nth o (eval R rO radd rmul D c y') []) rO) y = rI.
+Proof. exact normalised_partition_IntL. Qed.
+Print Assumptions C12_partition_function.
+
+(* softmax rows sum to one over any field *)
+Theorem C12_softmax_rows :
+  forall (R : Type) (rO rI : R) (radd rmul rsub : R -> R -> R) (ropp : R -> R) 
+           (rdiv : R -> R -> R) (rinv : R -> R),
+         field_theory rO rI radd rmul rsub ropp rdiv rinv eq ->
+         forall e : vec R,
+         vsum R rO radd e <> rO -> vsum R rO radd (map (fun x : R => rdiv x (vsum R rO radd e)) e) = rI.
+Proof. exact softmax_row_sum. Qed.
+Print Assumptions C12_softmax_rows.
+
+(* a mixing-weight row sums to the sum of its mixing coefficients *)
+Theorem C12_mixing_rows :
+  forall (R : Type) (rO rI : R) (radd rmul : R -> R -> R),
+         semi_ring_theory rO rI radd rmul eq ->
+         forall (K k : nat) (row : vec R),
+         k < K -> vsum R rO radd (mixing_row R rO K k row) = vsum R rO radd row.
+Proof. exact mixing_row_sum. Qed.
+Print Assumptions C12_mixing_rows.
+
+(* circuits with non-negative weights and input functions are non-negative *)
+Theorem C12_nonnegative :
+  forall (R : Type) (rO : R) (radd rmul : R -> R -> R) (D : Type) (nonneg : R -> Prop),
+         nonneg rO ->
+         (forall a b : R, nonneg a -> nonneg b -> nonneg (radd a b)) ->
+         (forall a b : R, nonneg a -> nonneg b -> nonneg (rmul a b)) ->
+         forall c : circuit R D,
+         (forall (W : list (vec R)) (ins : list nat),
+          In (NSum R D W ins) c -> forall w : vec R, In w W -> forall x : R, In x w -> nonneg x) ->
+         (forall i : inp R D,
+          In (NIn R D i) c -> forall (y : asg D) (k : nat), nonneg (nth k (ifun R D i y) rO)) ->
+         forall (y : asg D) (o k : nat), nonneg (nth k (nth o (eval R rO radd rmul D c y) []) rO).
+Proof. exact monotone_nonneg. Qed.
+Print Assumptions C12_nonnegative.
+
+(* circuits with positive weights and input functions are positive (finite log) *)
+Theorem C12_positive :
+  forall (R : Type) (rO rI : R) (radd rmul : R -> R -> R),
+         semi_ring_theory rO rI radd rmul eq ->
+         forall (D : Type) (pos : R -> Prop),
+         (forall a b : R, pos a -> pos b -> pos (radd a b)) ->
+         (forall a b : R, pos a -> pos b -> pos (rmul a b)) ->
+         forall c : circuit R D,
+         ok R rO D c ->
+         (forall (W : list (vec R)) (ins : list nat),
+          In (NSum R D W ins) c ->
+          W <> [] /\ (forall w : vec R, In w W -> w <> [] /\ (forall x : R, In x w -> pos x))) ->
+         (forall i : inp R D,
+          In (NIn R D i) c ->
+          0 < iunits R D i /\ (forall (y : asg D) (k : nat), k < iunits R D i -> pos (nth k (ifun R D i y) rO))) ->
+         forall (y : asg D) (o k : nat),
+         o < length c -> k < nth o (units R D c) 0 -> pos (nth k (nth o (eval R rO radd rmul D c y) []) rO).
+Proof. exact monotone_pos. Qed.
+Print Assumptions C12_positive.
